@@ -46,6 +46,38 @@ def default_value(t, rng, depth=0):
     raise AssertionError(k)
 
 
+def py2_dumps(obj):
+    """a protocol-2 pickle as a Python-2 client writes it: its `str` values are SHORT_BINSTRING / BINSTRING opcodes (raw bytes, decoded by
+    pickle.loads according to its `encoding` argument: ASCII by default - non-ASCII bytes then raise UnicodeDecodeError -, latin1, or kept as
+    bytes), its `unicode` values BINUNICODE.  Here: bytes -> py2 str, str -> py2 unicode; None, bool, int, float, list, tuple, dict."""
+    def enc(o):
+        if o is None: return b'N'
+        if o is True: return b'\x88'
+        if o is False: return b'\x89'
+        if isinstance(o, int):
+            if 0 <= o < 256: return b'K' + bytes([o])
+            if 0 <= o < 65536: return b'M' + struct.pack('<H', o)
+            if -2 ** 31 <= o < 2 ** 31: return b'J' + struct.pack('<i', o)
+            n = (o.bit_length() + 8) // 8; return b'\x8a' + bytes([n]) + o.to_bytes(n, 'little', signed=True)
+        if isinstance(o, float): return b'G' + struct.pack('>d', o)
+        if isinstance(o, bytes): return (b'U' + bytes([len(o)]) if len(o) < 256 else b'T' + struct.pack('<i', len(o))) + o
+        if isinstance(o, str): u = o.encode('utf-8'); return b'X' + struct.pack('<I', len(u)) + u
+        if isinstance(o, list): return b']' + (b'(' + b''.join(enc(x) for x in o) + b'e' if o else b'')
+        if isinstance(o, tuple): return b')' if not o else b'(' + b''.join(enc(x) for x in o) + b't'
+        if isinstance(o, dict): return b'}' + (b'(' + b''.join(enc(k) + enc(v) for k, v in o.items()) + b'u' if o else b'')
+        raise TypeError('py2_dumps: %r' % type(o))
+    return b'\x80\x02' + enc(obj) + b'.'
+
+
+def to_py2(o):
+    """every text value as a Python-2 `str` (UTF-8 bytes)"""
+    if isinstance(o, str): return o.encode('utf-8')
+    if isinstance(o, list): return [to_py2(x) for x in o]
+    if isinstance(o, tuple): return tuple(to_py2(x) for x in o)
+    if isinstance(o, dict): return {to_py2(k): to_py2(v) for k, v in o.items()}
+    return o
+
+
 def strip_user(t):
     while t[0] == 'user': t = t[1]
     return t
@@ -134,7 +166,7 @@ def roster(consts, ids, extra=None):
     return out
 
 
-def build_wows(v, rng, join=True, battle_end=True, map_name='spaces/16_OC_bees_to_honey', n_players=3, roster_extra=None, recreate=False):
+def build_wows(v, rng, join=True, battle_end=True, map_name='spaces/16_OC_bees_to_honey', n_players=3, roster_extra=None, recreate=False, dumps=None, extreme=False, reuse=False):
     """-> (Battle, version string for the open block).  v: a directory name under clients/wows/versions"""
     ver = v.split('_'); new = tuple(map(int, ver[:3])) >= (12, 6, 0)
     d = os.path.join(common.REPO, 'replay_unpack', 'clients', 'wows', 'versions', v)
@@ -181,13 +213,21 @@ def build_wows(v, rng, join=True, battle_end=True, map_name='spaces/16_OC_bees_t
     def crew(t, val):
         if val is None: val = default_value(('dict', strip_user(t)[1], False), rng)
         ft = field_type(t, ['learnedSkills'])
+        if extreme and ft is not None and strip_user(ft)[0] == 'u':
+            # the versions that carry the learned skills as ONE unsigned bit mask: every bit set (the top bit is the sign bit of a signed read)
+            set_path(val, ['learnedSkills'], 2 ** (8 * strip_user(ft)[1]) - 1)
         if ft is not None and strip_user(ft)[0] == 'array':
             et = strip_user(strip_user(ft)[1])
             skill_ids = sorted(getattr(consts, 'SKILL_TYPE_ID_TO_NAME', {}) or {1: 'a', 2: 'b', 3: 'c'})[:7]
             set_path(val, ['learnedSkills'], [(skill_ids[k % 3:] + skill_ids[:k % 3] if k < 4 else []) if et[0] == 'array' else default_value(et, rng) for k in range(6)])
         return val
-    for vid in (V1, V2):
-        b.create(vid, 'Vehicle', [('crewModifiersCompactParams', crew)] if 'crewModifiersCompactParams' in vnames else [])
+    b.expect['vehicles'] = {}
+    def vehicle(vid):
+        def rec(t, val):
+            val = crew(t, val); b.expect['vehicles'][vid] = val; return val
+        b.expect['vehicles'][vid] = None
+        b.create(vid, 'Vehicle', [('crewModifiersCompactParams', rec)] if 'crewModifiersCompactParams' in vnames else [])
+    for vid in (V1, V2): vehicle(vid)
     if recreate:
         # ids that are created, updated and created AGAIN (with another value, with a partial property set, as another type): afterwards only
         # the last creation and what followed it may be visible - through the version's own controller (create_entity / entities)
@@ -203,7 +243,8 @@ def build_wows(v, rng, join=True, battle_end=True, map_name='spaces/16_OC_bees_t
             b.create(701, t1, [(p1, keep)])
             b.create(701, t2, [(b.md.ent[t2]['client'][-1][0], keep)])                       # re-created as another type
             b.create(702, t2, []); b.create(702, t2, [(pn, keep) for pn, _ in b.md.ent[t2]['client'][:2]])
-    pk = lambda obj: (lambda t: ('s', pickle.dumps(obj, protocol=2)))
+    dumps = dumps or (lambda o: pickle.dumps(o, protocol=2))
+    pk = lambda obj: (lambda t: ('s', dumps(obj)))
     am = {x['name']: x for x in b.md.ent['Avatar']['methods']}
     vm = {x['name']: x for x in b.md.ent['Vehicle']['methods']}
     r = roster(consts, range(n_players), extra=roster_extra(consts) if roster_extra else None)
@@ -215,7 +256,7 @@ def build_wows(v, rng, join=True, battle_end=True, map_name='spaces/16_OC_bees_t
     if len(args) == 1:
         def arena(t):
             val = default_value(('dict', strip_user(t)[1], False), rng)
-            set_path(val, ['playersStates'], ('s', pickle.dumps(r, protocol=2)))
+            set_path(val, ['playersStates'], ('s', dumps(r)))
             return val
         b.call(A, 'Avatar', 'onArenaStateReceived', [arena])
     else:
@@ -272,6 +313,13 @@ def build_wows(v, rng, join=True, battle_end=True, map_name='spaces/16_OC_bees_t
         body = json.dumps({'commonList': list(range(len(getattr(consts, 'COMMON_RESULTS', [0, 1])))), 'privateDataList': priv, 'playersPublicInfo': {'100': pub},
                            'buildings': {'7': list(range(len(getattr(consts, 'BUILDINGS_FULL_RESULTS', [0, 1]))))}}).encode()
         b.pkt('BattleStats', struct.pack('<i', len(body)) + body); b.expect['post_battle'] = True
+    if reuse:
+        # ids that change owner: a third ship is created and its id is then handed to an entity of another type (it is no ship any more: no crew,
+        # no skills in the summary); the id of a non-ship entity is handed to a new ship (which must appear with ITS crew)
+        neutral = [n for n in b.md.names if n not in ('Avatar', 'Vehicle', 'BattleLogic')]
+        if neutral:
+            vehicle(502); b.create(502, neutral[0], []); del b.expect['vehicles'][502]
+            b.create(503, neutral[-1], []); vehicle(503)
     if battle_end and 'onBattleEnd' in am:
         be = am['onBattleEnd']['args']
         b.call(A, 'Avatar', 'onBattleEnd', [1, 2][:len(be)]); b.expect['ended'] = True
